@@ -1169,11 +1169,12 @@ def gen_macro_value_program(seed, start, count):
     rng = random.Random(seed * 5000011 + start)
     src = ('#![allow(dead_code, unused_imports, unused_variables, unused_parens, non_snake_case)]\n'
            'use derive_ex::{derive_ex, Ex};\npub const K8: i8 = 7;\npub fn two() -> usize { 2 }\n'
-           'pub trait Tr: ::core::fmt::Debug { fn get(&self) -> u8; }\nimpl Tr for u8 { fn get(&self) -> u8 { *self } }\n')
+           'pub trait Tr: ::core::fmt::Debug { fn get(&self) -> u8; }\nimpl Tr for u8 { fn get(&self) -> u8 { *self } }\n'
+           'pub trait IdT { type T; }\nimpl<A> IdT for A { type T = A; }\n')
     cases = []
     for idx in range(start, start + count):
         mod = f'c{idx}'
-        kind = rng.choice(['default_expr', 'by_expr', 'impl_body', 'type_frag'])
+        kind = rng.choice(['default_expr', 'by_expr', 'impl_body', 'type_frag', 'ops_struct'])
         a, b = rng.randrange(1, 5), rng.randrange(1, 5)
         e_arg = rng.choice([f'{a} + {b}', f'{a} + {b}', f'{a + b}', f'({a} + {b})', f'{a} << 1 | {b}'])
         e_val = eval(e_arg)
@@ -1213,6 +1214,19 @@ def gen_macro_value_program(seed, start, count):
                      f'  n += 1; if (X(1) + 2).0 != 1 + 20 * ({e_arg}) + 100 {{ println!("{mod} FAIL n @ $q with $q = {pat}: {{}}", (X(1) + 2).0); }}\n'
                      f'  n += 1; let mut y = X(1); y += 3; if y != X(1) + 3 {{ println!("{mod} FAIL += differs from +"); }}\n')
             traits = [t.strip() for t in tr.split(',')]
+        elif kind == 'ops_struct':
+            tl = 'Add, AddAssign, Neg, Clone, Copy, Debug, PartialEq'
+            head = f'#[derive(Ex)] #[derive_ex({tl})]' if derive else f'#[derive_ex({tl})]'
+            t_arg = rng.choice(['i32', '<i32 as IdT>::T', '(i32)', 'i64'])
+            decl = (f'macro_rules! mk {{ ($t:ty, $e:expr) => {{ {head} pub struct X(pub $t, pub $t); '
+                    f'pub fn mk(a: i32) -> X {{ X((a * $e) as $t, (a + $e) as $t) }} }} }}\n'
+                    f' mk!({t_arg}, {e_arg});')
+            check = (f'  let (x, y) = (mk(1), mk(2));\n'
+                     f'  n += 1; if x.0 as i64 != ({e_arg}) as i64 || x.1 as i64 != (1 + ({e_arg})) as i64 {{ println!("{mod} FAIL the function next to the item changed its meaning"); }}\n'
+                     f'  n += 1; if x + y != X(x.0 + y.0, x.1 + y.1) || &x + &y != x + y || &x + y != x + &y {{ println!("{mod} FAIL field-wise + in the four forms"); }}\n'
+                     f'  n += 1; if -x != X(-x.0, -x.1) || -&x != -x {{ println!("{mod} FAIL neg"); }}\n'
+                     f'  n += 1; let mut z = x; z += y; z += &y; if z != x + y + y {{ println!("{mod} FAIL +="); }}\n')
+            traits = [t.strip() for t in tl.split(',')]
         else:
             head = '#[derive(Ex)] #[derive_ex(Deref, Debug)]' if derive else '#[derive_ex(Deref, Debug)]'
             t_arg = rng.choice(['dyn Tr + Send', 'dyn Tr', 'u8'])
